@@ -106,7 +106,7 @@ def parse_output(out, res=None):
 
 def run_tlc(module, cfg, workers=16, simulate=None, depth=None, seed=None, coverage=False,
             timeout=900, env=None, spec_dir=SPEC_DIR, deadlock=None, expect_error=False,
-            java_opts=None, extra=None, heap="8g", keep_output=None):
+            java_opts=None, extra=None, heap="4g", keep_output=None):
     """Run TLC on ``module`` (file name without .tla, in spec_dir) with config file ``cfg``.
 
     simulate: None or a dict(num=..)/string passed to -simulate.
